@@ -1,4 +1,422 @@
 package main
 
-func cmdCheck(args []string) int  { return 2 }
-func cmdReplay(args []string) int { return 2 }
+import (
+	"encoding/json"
+	"fmt"
+	"os"
+	"path/filepath"
+	"sort"
+	"strconv"
+	"strings"
+	"time"
+)
+
+// PropConfig says which functions' obligations decide a property.
+type PropConfig struct {
+	Functions   []string `json:"functions"`             // keys (as printed by ssa) of functions under contract
+	Packages    []string `json:"packages,omitempty"`    // every function of these packages (safety sweep)
+	Exclude     []string `json:"exclude,omitempty"`     // function keys excluded from the package sweep (with reason in notes)
+	OnlyTagged  bool     `json:"only_tagged,omitempty"` // count only clauses tagged with this property id
+	Kinds       []string `json:"kinds,omitempty"`       // restrict to obligation kinds with these prefixes
+	Analyses    []string `json:"analyses,omitempty"`    // solver-free analyses (frames, effect inventory, dependence)
+	Assumptions []string `json:"assumptions"`
+	Level       string   `json:"level"`
+	Notes       string   `json:"notes,omitempty"`
+}
+
+type KnownFinding struct {
+	Property   string `json:"property"`
+	Fn         string `json:"fn"`
+	Obligation string `json:"obligation"`
+	Status     string `json:"status"` // known | fixed
+	Commit     string `json:"commit,omitempty"`
+	What       string `json:"what"`
+	Witness    string `json:"witness,omitempty"`
+}
+
+type LedgerEntry struct {
+	Fn   string `json:"fn"`
+	Name string `json:"name"`
+}
+
+func readJSON(path string, v any) error {
+	bs, err := os.ReadFile(path)
+	if err != nil {
+		return err
+	}
+	return json.Unmarshal(bs, v)
+}
+
+func stableKind(name string) bool {
+	// obligations whose names do not depend on instruction ordinals
+	for _, p := range []string{"post/", "frame/", "cover/"} {
+		if strings.HasPrefix(name, p) {
+			return true
+		}
+	}
+	if strings.HasPrefix(name, "loop") && (strings.Contains(name, "/inv-entry/") || strings.Contains(name, "/inv-step/") || strings.Contains(name, "/variant/")) {
+		return true
+	}
+	return false
+}
+
+func hasTag(o *Obligation, id string) bool {
+	if len(o.Tags) == 0 {
+		return true
+	}
+	for _, t := range o.Tags {
+		if t == id {
+			return true
+		}
+	}
+	return false
+}
+
+type oblReport struct {
+	Fn      string  `json:"fn"`
+	Name    string  `json:"name"`
+	Desc    string  `json:"desc"`
+	Pos     string  `json:"pos"`
+	Answer  string  `json:"answer"`
+	By      string  `json:"by"`
+	Secs    float64 `json:"secs"`
+	SMTSize int     `json:"smt_bytes,omitempty"`
+}
+
+func cmdCheck(args []string) int {
+	t0 := time.Now()
+	tier := os.Getenv("VERIF_TIER")
+	if tier == "" {
+		tier = "quick"
+	}
+	var id string
+	mkLedger := false
+	for i := 0; i < len(args); i++ {
+		switch {
+		case args[i] == "--tier" && i+1 < len(args):
+			tier = args[i+1]
+			i++
+		case args[i] == "--ledger":
+			mkLedger = true
+		default:
+			id = args[i]
+		}
+	}
+	if id == "" {
+		fmt.Fprintln(os.Stderr, "usage: gvc check <property> [--tier quick|thorough] [--ledger]")
+		return 2
+	}
+	seed, _ := strconv.Atoi(os.Getenv("VERIF_SEED"))
+	vr := verifRoot()
+	var props map[string]*PropConfig
+	if err := readJSON(filepath.Join(vr, "props.json"), &props); err != nil {
+		fmt.Fprintln(os.Stderr, "props.json:", err)
+		return 2
+	}
+	pc := props[id]
+	if pc == nil {
+		fmt.Fprintln(os.Stderr, "unknown property", id)
+		return 2
+	}
+	var known []KnownFinding
+	_ = readJSON(filepath.Join(vr, "known_findings.json"), &known)
+	e, err := loadEngine()
+	if err != nil {
+		// the tree does not load: nothing can be decided
+		fmt.Fprintln(os.Stderr, "gvc: cannot load repository:", err)
+		return 2
+	}
+	// functions under contract for this property
+	keyset := map[string]bool{}
+	for _, k := range pc.Functions {
+		keyset[k] = true
+	}
+	excl := map[string]bool{}
+	for _, k := range pc.Exclude {
+		excl[k] = true
+	}
+	for _, p := range pc.Packages {
+		for k, fn := range e.funcs {
+			if fnPkgPathDeep(fn) == p && !excl[k] && fn.Blocks != nil {
+				keyset[k] = true
+			}
+		}
+	}
+	var keys []string
+	for k := range keyset {
+		keys = append(keys, k)
+	}
+	sort.Strings(keys)
+	results := e.generate(keys)
+	// filter obligations to those that serve this property
+	nobl := 0
+	for _, r := range results {
+		if r.Err != nil {
+			continue
+		}
+		var keep []*Obligation
+		for _, o := range r.Obls {
+			if !hasTag(o, id) {
+				continue
+			}
+			if pc.OnlyTagged && len(o.Tags) == 0 && !o.Cover {
+				continue
+			}
+			if len(pc.Kinds) > 0 && !o.Cover {
+				ok := false
+				for _, k := range pc.Kinds {
+					if strings.HasPrefix(o.Name, k) {
+						ok = true
+					}
+				}
+				if !ok {
+					continue
+				}
+			}
+			keep = append(keep, o)
+		}
+		r.Obls = keep
+		nobl += len(keep)
+	}
+	timeout := 10
+	if tier == "thorough" {
+		timeout = 60
+	}
+	outDir := filepath.Join(vr, "out", id)
+	os.RemoveAll(outDir)
+	if err := e.solveAll(results, timeout, 16, filepath.Join(outDir, "vc")); err != nil {
+		fmt.Fprintln(os.Stderr, "gvc:", err)
+		return 2
+	}
+	// ledger
+	ledgerPath := filepath.Join(vr, "ledger", id+".json")
+	if mkLedger {
+		var led []LedgerEntry
+		for _, r := range results {
+			for _, o := range r.Obls {
+				if stableKind(o.Name) {
+					led = append(led, LedgerEntry{r.Fn, o.Name})
+				}
+			}
+		}
+		sort.Slice(led, func(i, j int) bool {
+			if led[i].Fn != led[j].Fn {
+				return led[i].Fn < led[j].Fn
+			}
+			return led[i].Name < led[j].Name
+		})
+		os.MkdirAll(filepath.Dir(ledgerPath), 0o755)
+		bs, _ := json.MarshalIndent(led, "", " ")
+		os.WriteFile(ledgerPath, append(bs, '\n'), 0o644)
+		fmt.Printf("ledger %s: %d stable obligations\n", ledgerPath, len(led))
+	}
+	var ledger []LedgerEntry
+	_ = readJSON(ledgerPath, &ledger)
+
+	type failure struct {
+		fn, name, reason, pos, desc string
+		v                         *Verdict
+	}
+	var fails []failure
+	generated := map[string]bool{}
+	discharged, total := 0, 0
+	bySolver := map[string]int{}
+	solverSecs := 0.0
+	var samples []oblReport
+	var all []oblReport
+	var slow []string
+	covers, coversOK := 0, 0
+	for _, r := range results {
+		if r.Err != nil {
+			fails = append(fails, failure{fn: r.Fn, name: "vcgen", reason: "generator-error: " + r.Err.Error()})
+			continue
+		}
+		for i, o := range r.Obls {
+			v := r.Verdicts[i]
+			generated[r.Fn+"|"+o.Name] = true
+			solverSecs += v.Secs
+			rep := oblReport{Fn: shortCallee(r.Fn), Name: o.Name, Desc: o.Desc, Pos: o.Pos, Answer: v.Answer, By: v.By, Secs: v.Secs}
+			all = append(all, rep)
+			if o.Cover {
+				covers++
+				if v.Answer == "covered" {
+					coversOK++
+				} else {
+					vv := v
+					fails = append(fails, failure{r.Fn, o.Name, "vacuity guard failed (" + v.Answer + "): contract or axioms are contradictory", o.Pos, o.Desc, &vv})
+				}
+				continue
+			}
+			total++
+			if v.Answer == "unsat" {
+				discharged++
+				bySolver[v.By]++
+				if v.Secs > float64(timeout)/2 {
+					slow = append(slow, fmt.Sprintf("%s :: %s (%.1fs)", shortCallee(r.Fn), o.Name, v.Secs))
+				}
+				if len(samples) < 6 && (strings.HasPrefix(o.Name, "post/") || strings.Contains(o.Name, "inv-step") || len(samples) < 2) {
+					samples = append(samples, rep)
+				}
+			} else {
+				vv := v
+				fails = append(fails, failure{r.Fn, o.Name, "obligation not discharged (" + v.Answer + ")", o.Pos, o.Desc, &vv})
+			}
+		}
+	}
+	for _, l := range ledger {
+		if !generated[l.Fn+"|"+l.Name] {
+			fails = append(fails, failure{fn: l.Fn, name: l.Name, reason: "contract-target-missing: the ledger obligation was not generated (function, loop or clause vanished)"})
+		}
+	}
+	for _, m := range e.missing {
+		for _, k := range keys {
+			if strings.Contains(m, k) {
+				fails = append(fails, failure{fn: k, name: "contract", reason: "contract-target-missing: " + m})
+			}
+		}
+	}
+	// known findings
+	isKnown := func(f failure) *KnownFinding {
+		for i := range known {
+			k := &known[i]
+			if k.Property == id && k.Status == "known" && k.Fn == f.fn && k.Obligation == f.name {
+				return k
+			}
+		}
+		return nil
+	}
+	violations := 0
+	var knownHit []string
+	replayDir := filepath.Join(vr, "out", "replay", id)
+	os.RemoveAll(replayDir)
+	for _, f := range fails {
+		if k := isKnown(f); k != nil {
+			fmt.Printf("KNOWN-FINDING: property=%s %s :: %s — %s\n", id, shortCallee(f.fn), f.name, k.What)
+			knownHit = append(knownHit, shortCallee(f.fn)+" :: "+f.name)
+			continue
+		}
+		violations++
+		os.MkdirAll(replayDir, 0o755)
+		rp := filepath.Join(replayDir, sanitize(shortCallee(f.fn)+"__"+f.name)+".json")
+		rec := map[string]any{"property": id, "function": f.fn, "obligation": f.name, "reason": f.reason, "pos": f.pos, "desc": f.desc}
+		suffix := " no-failing-input-found"
+		if f.v != nil {
+			rec["solver"] = f.v
+			if out, ok := e.tryReplay(id, f.fn, f.name, f.v, rec); ok {
+				suffix = ""
+				rec["replay"] = out
+			}
+		}
+		bs, _ := json.MarshalIndent(rec, "", " ")
+		os.WriteFile(rp, append(bs, '\n'), 0o644)
+		fmt.Printf("VIOLATION property=%s replay=%s obligation=%s::%s reason=%q%s\n", id, rp, shortCallee(f.fn), f.name, f.reason, suffix)
+	}
+	// evidence
+	var trusted []string
+	usedT := map[string]bool{}
+	var unknownCalls []string
+	inlined := map[string]bool{}
+	for _, r := range results {
+		if r.Ctx == nil {
+			continue
+		}
+		for k := range r.Ctx.usedTrusted {
+			usedT[k] = true
+		}
+		for k := range r.Ctx.inlined {
+			inlined[k] = true
+		}
+		unknownCalls = append(unknownCalls, r.Ctx.unknownCalls...)
+	}
+	for k := range usedT {
+		trusted = append(trusted, "trusted contract: "+k)
+	}
+	sort.Strings(trusted)
+	base := []string{"Go type checker and go/ssa builder (golang.org/x/tools v0.29.0)", "SMT solvers z3 5.1.0 / z3 4.8.12 / cvc5 1.0.3 (raced; disagreement is a tool error)", "gvc VC generator (/verif/gvc)"}
+	trusted = append(base, trusted...)
+	var inl []string
+	for k := range inlined {
+		inl = append(inl, shortCallee(k))
+	}
+	sort.Strings(inl)
+	var fnames []string
+	for _, k := range keys {
+		fnames = append(fnames, shortCallee(k))
+	}
+	assumptions := append([]string{}, pc.Assumptions...)
+	assumptions = append(assumptions, "integers are mathematical (no wrap-around) except in functions marked `arith checked`; value ranges of machine types are assumed for inputs and loaded values")
+	for _, w := range e.warns {
+		assumptions = append(assumptions, "engine: "+w)
+	}
+	sort.Strings(unknownCalls)
+	level := pc.Level
+	if level == "" {
+		level = "proof"
+	}
+	cov := map[string]any{
+		"obligations":              total,
+		"discharged":               discharged,
+		"checker_cmd":              fmt.Sprintf("/verif/bin/gvc check %s --tier %s  (per obligation: z3-new -T:%d | z3 | cvc5)", id, tier, timeout),
+		"trusted_base":             trusted,
+		"samples":                  samples,
+		"functions_under_contract": fnames,
+		"inlined_callees":          inl,
+		"by_solver":                bySolver,
+		"solver_seconds":           solverSecs,
+		"vacuity_covers":           covers,
+		"vacuity_covers_ok":        coversOK,
+		"ledger_obligations":       len(ledger),
+		"known_findings":           knownHit,
+		"slow_obligations":         slow,
+		"explanation":              pc.Notes,
+	}
+	if total == 0 {
+		// never report success on zero obligations
+		fmt.Printf("VIOLATION property=%s replay=%s reason=%q no-failing-input-found\n", id, ledgerPath, "no obligations were generated (vacuous check)")
+		violations++
+	}
+	ev := map[string]any{
+		"property_id": id,
+		"tier":        tier,
+		"seed":        seed,
+		"level":       level,
+		"coverage":    cov,
+		"assumptions": assumptions,
+		"wall_s":      time.Since(t0).Seconds(),
+		"violations":  violations,
+	}
+	os.MkdirAll(filepath.Join(vr, "evidence"), 0o755)
+	bs, _ := json.MarshalIndent(ev, "", " ")
+	if err := os.WriteFile(filepath.Join(vr, "evidence", id+".json"), append(bs, '\n'), 0o644); err != nil {
+		fmt.Fprintln(os.Stderr, err)
+		return 2
+	}
+	// full obligation table (not evidence; for inspection)
+	os.MkdirAll(outDir, 0o755)
+	bs, _ = json.MarshalIndent(all, "", " ")
+	os.WriteFile(filepath.Join(outDir, "obligations.json"), bs, 0o644)
+	fmt.Printf("%s: %d/%d obligations discharged, %d vacuity covers ok, %d functions, %.1fs\n", id, discharged, total, coversOK, len(keys), time.Since(t0).Seconds())
+	if violations > 0 {
+		return 1
+	}
+	return 0
+}
+
+// tryReplay is overridden per function family in replay.go.
+func (e *Engine) tryReplay(id, fn, obl string, v *Verdict, rec map[string]any) (any, bool) {
+	return nil, false
+}
+
+func cmdReplay(args []string) int {
+	if len(args) < 1 {
+		fmt.Fprintln(os.Stderr, "usage: gvc replay <file>")
+		return 2
+	}
+	bs, err := os.ReadFile(args[0])
+	if err != nil {
+		fmt.Fprintln(os.Stderr, err)
+		return 2
+	}
+	os.Stdout.Write(bs)
+	return 0
+}
